@@ -2,7 +2,7 @@
    arguments and arbitrary hints.  Whatever the rest of the network does reaches one node as such
    a sequence (DESIGN 1), so an invariant of all reachable ledgers holds on every node of every
    network under every schedule (given the atomicity of the locked regions). *)
-From Verif Require Import U64 Spice RepoConstants Ledger ListFacts LedgerInv.
+From Verif Require Import U64 Spice RepoConstants Ledger ListFacts LedgerInv LedgerGraph.
 From Coq Require Import NArith Permutation.
 
 Inductive lop :=
@@ -26,11 +26,13 @@ Definition lstep (L : ledger) (o : lop) : ledger :=
   end.
 
 (* side conditions on hints: a hash produced by the node itself is new (sha256 collision freeness,
-   H-sha), and CreateGenesis is the start-up call of a node that has no ledger yet *)
+   H-sha), no vertex carries the all-zero hash (it marks "no parent"; not a sha256 digest of any
+   message that occurs), and CreateGenesis is the start-up call of a node that has no ledger yet *)
 Definition lop_ok (L : ledger) (o : lop) : Prop :=
   match o with
-  | LGenesis _ _ _ _ _ _ => loaded L = false
-  | LCreate _ _ _ newh _ _ => fresh L newh
+  | LGenesis _ _ _ _ h _ => loaded L = false /\ h <> 0%N
+  | LCreate _ _ _ newh _ _ => fresh L newh /\ newh <> 0%N
+  | LAdd v _ => v_hash v <> 0%N
   | _ => True
   end.
 
@@ -41,8 +43,8 @@ Inductive reach (me : N) : ledger -> Prop :=
 Lemma lstep_Inv L o : Inv L -> lop_ok L o -> Inv (lstep L o).
 Proof.
   intros I Hok. destruct o; cbn [lstep lop_ok] in *.
-  - destruct (create_genesis L recv amt data th h vok) eqn:E. eapply create_genesis_inv; eauto.
-  - destruct (create_leaf L t o1 o2 newh vok b) as [[L' r] ov] eqn:E. eapply create_leaf_inv; eauto.
+  - destruct (create_genesis L recv amt data th h vok) eqn:E. eapply create_genesis_inv; [exact I|apply Hok|exact E].
+  - destruct (create_leaf L t o1 o2 newh vok b) as [[L' r] ov] eqn:E. eapply create_leaf_inv; [exact I|apply Hok|exact E].
   - destruct (add_leaf L v b) eqn:E. eapply add_leaf_inv; eauto.
   - destruct (retry_one L b) eqn:E. eapply retry_one_inv; eauto.
   - destruct (truncate L tip cut a32) eqn:E. eapply truncate_inv; eauto.
@@ -52,6 +54,116 @@ Qed.
 
 Theorem reach_Inv me L : reach me L -> Inv L.
 Proof. induction 1; [apply Inv_init|apply lstep_Inv; assumption]. Qed.
+
+Lemma lstep_InvG L o : Inv L -> InvG L -> lop_ok L o -> InvG (lstep L o).
+Proof.
+  intros I G Hok. destruct o; cbn [lstep lop_ok] in *.
+  - destruct Hok as [Hl Hz]. destruct (inv_unl _ I Hl) as [Hd [Hs [Hp _]]].
+    destruct (create_genesis L recv amt data th h vok) eqn:E. eapply create_genesis_invG; eauto.
+  - destruct Hok as [Hf Hz]. destruct (create_leaf L t o1 o2 newh vok b) as [[L' r] ov] eqn:E.
+    eapply create_leaf_invG; [exact G|exact Hz| |exact E].
+    intros Hin. apply Hf. unfold vertices. rewrite map_app. apply in_or_app. right. exact Hin.
+  - destruct (add_leaf L v b) eqn:E. eapply add_leaf_invG; eauto.
+  - destruct (retry_one L b) eqn:E. eapply retry_one_invG; eauto.
+  - destruct (truncate L tip cut a32) eqn:E. eapply InvG_truncate; eauto.
+  - eapply InvG_ext; [| | |exact G]; reflexivity.
+  - eapply InvG_ext; [| | |exact G]; reflexivity.
+Qed.
+
+Theorem reach_InvG me L : reach me L -> InvG L.
+Proof.
+  induction 1; [apply InvG_init|]. apply lstep_InvG; [eapply reach_Inv; eauto|assumption|assumption].
+Qed.
+
+(* ---------------------------------------------------------------- acyclicity from the list order *)
+Fixpoint pos (h : N) (l : list N) : nat :=
+  match l with [] => 0 | x :: r => if N.eqb x h then 0 else S (pos h r) end.
+
+Definition edge (L : ledger) (p c : N) : Prop := exists n, In n (dag L) /\ nhash n = c /\ In p (lp n).
+
+Lemma ordered_pos l : ordered l -> NoDup (map nhash l) ->
+  forall n p, In n l -> In p (lp n) -> (pos (nhash n) (map nhash l) < pos p (map nhash l))%nat.
+Proof.
+  induction l as [|m r IH]; cbn; [tauto|]. intros [Ho Hr] Hnd n p Hn Hp.
+  inversion Hnd as [|? ? Hm Hndr]; subst.
+  destruct Hn as [En|Hn].
+  - subst m. rewrite N.eqb_refl. destruct (N.eqb_spec (nhash n) p) as [E|E]; [|lia].
+    exfalso. apply Hm. rewrite E. apply Ho. exact Hp.
+  - assert (Hne : nhash m <> nhash n) by (intros E; apply Hm; rewrite E; apply in_map; exact Hn).
+    destruct (N.eqb_spec (nhash m) (nhash n)); [contradiction|].
+    assert (Hpr : In p (map nhash r)).
+    { clear -Hr Hn Hp. induction r as [|x r IHr]; cbn in *; [tauto|]. destruct Hr as [Hx Hr].
+      destruct Hn as [E|Hn]; [subst x; right; apply Hx; exact Hp|right; apply IHr; assumption]. }
+    destruct (N.eqb_spec (nhash m) p) as [E|E]; [exfalso; apply Hm; rewrite E; exact Hpr|].
+    apply -> Nat.succ_lt_mono. apply IH; assumption.
+Qed.
+
+Lemma reach_edges_ranked me L : reach me L ->
+  forall p c, edge L p c -> (pos c (map nhash (dag L)) < pos p (map nhash (dag L)))%nat.
+Proof.
+  intros R p c [n [Hn [Ec Hp]]]. subst c.
+  apply ordered_pos; [exact (g_order _ (reach_InvG _ _ R))|exact (Inv_nodup_dag _ (reach_Inv _ _ R))|exact Hn|exact Hp].
+Qed.
+
+From Coq Require Import Relations.
+Lemma reach_acyclic me L : reach me L -> forall h, ~ clos_trans N (edge L) h h.
+Proof.
+  intros R h Hc.
+  assert (Hlt : forall a b, clos_trans N (edge L) a b -> (pos b (map nhash (dag L)) < pos a (map nhash (dag L)))%nat).
+  { intros a b Hab. induction Hab as [a b Hab|a b c _ IH1 _ IH2]; [eapply reach_edges_ranked; eauto|lia]. }
+  specialize (Hlt h h Hc). lia.
+Qed.
+
+(* edges are exactly the declared parents that are live; absent parents are checkpointed *)
+Lemma reach_edges_exact me L : reach me L -> forall n, In n (dag L) ->
+  NoDup (lp n) /\
+  (forall p, In p (lp n) <-> In p (decl (nv n)) /\ live L p = true) /\
+  (forall p, In p (decl (nv n)) -> live L p = false ->
+     stored L p = true \/ (v_left (nv n) = 0 /\ v_right (nv n) = 0 /\ lp n = [])%N).
+Proof.
+  intros R n Hn. pose proof (reach_InvG _ _ R) as G. split; [exact (g_nodup _ G n Hn)|]. split.
+  - intros p. split; [apply (g_sound _ G n Hn)|intros [H1 H2]; apply (g_complete _ G n Hn); assumption].
+  - apply (g_absent _ G n Hn).
+Qed.
+
+(* a created vertex references tips of the ledger it is inserted into and weighs max + 1 *)
+Lemma created_vertex_shape L t o1 o2 newh vok b L' v :
+  create_leaf L t o1 o2 newh vok b = (L', ROk, Some v) ->
+  exists l r L2, In l (dag L2) /\ In r (dag L2) /\ has_child L2 (nhash l) = false /\ has_child L2 (nhash r) = false /\
+    L' = insert L2 v (dedup2 (nhash l) (nhash r)) /\
+    v_left v = nhash l /\ v_right v = nhash r /\ v_signer v = self L /\ v_trx v = t /\ v_hash v = newh /\
+    v_weight v = wrap (Z.max (v_weight (nv l)) (v_weight (nv r)) + 1).
+Proof.
+  unfold create_leaf.
+  destruct (loaded L); cbn [negb]; [|discriminate].
+  destruct (is_empty_trx t); [discriminate|].
+  destruct (canonb _); cbn [negb]; [|discriminate].
+  destruct (N.eqb _ (self L)); [discriminate|].
+  destruct (N.eqb _ (genesis L)); [discriminate|].
+  destruct (_ && _); [discriminate|].
+  destruct (has_trx L _); [discriminate|].
+  assert (Fin : forall L2 l r0, In l (dag L2) /\ has_child L2 (nhash l) = false -> In r0 (dag L2) /\ has_child L2 (nhash r0) = false ->
+    (let v0 := Vtx newh (nhash l) (nhash r0) (wrap (Z.max (v_weight (nv l)) (v_weight (nv r0)) + 1)) (self L) vok t in
+      if has_trx L2 (t_hash t) then (L2, RRejected, None) else
+      if live L2 newh then (L2, RRejected, None) else
+      (insert L2 v0 (dedup2 (nhash l) (nhash r0)), ROk, Some v0)) = (L', ROk, Some v) ->
+    exists l r L2, In l (dag L2) /\ In r (dag L2) /\ has_child L2 (nhash l) = false /\ has_child L2 (nhash r) = false /\
+    L' = insert L2 v (dedup2 (nhash l) (nhash r)) /\
+    v_left v = nhash l /\ v_right v = nhash r /\ v_signer v = self L /\ v_trx v = t /\ v_hash v = newh /\
+    v_weight v = wrap (Z.max (v_weight (nv l)) (v_weight (nv r)) + 1)).
+  { intros L2 l r0 [Hl1 Hl2] [Hr1 Hr2]. cbn zeta.
+    destruct (has_trx L2 _); [discriminate|]. destruct (live L2 newh); [discriminate|].
+    intros H; inversion H; subst. exists l, r0, L2. repeat split; auto. }
+  destruct (valid_leaves L o1 [] false b) as [[[L1 acc] e1] b1] eqn:Ev1.
+  pose proof (valid_leaves_acc _ _ _ _ _ _ _ _ _ (fun m (F : In m []) => match F with end) Ev1) as Hacc1.
+  destruct e1; [discriminate|].
+  destruct acc as [|l [|r0 rest]].
+  - destruct (valid_leaves L1 o2 [] false b1) as [[[L2 acc2] e2] b2] eqn:Ev2.
+    pose proof (valid_leaves_acc _ _ _ _ _ _ _ _ _ (fun m (F : In m []) => match F with end) Ev2) as Hacc2.
+    destruct e2, acc2 as [|l [|r0 rest]]; try discriminate; intros H; eapply Fin; try exact H; apply Hacc2; cbn; auto.
+  - intros H; eapply Fin; try exact H; apply Hacc1; cbn; auto.
+  - intros H; eapply Fin; try exact H; apply Hacc1; cbn; auto.
+Qed.
 
 (* ---------------------------------------------------------------- consequences stated property by property *)
 
@@ -171,3 +283,36 @@ Lemma genesis_receiver_not_issuer : forall L amt data th h vok L' r,
 Proof.
   intros L amt data th h vok L' r H. unfold create_genesis in H. rewrite N.eqb_refl in H. inversion H. auto.
 Qed.
+
+(* a vertex that does not verify is refused before anything is touched: never admitted, never parked *)
+Lemma unverified_rejected L v b : v_ok v = false ->
+  exists r, add_leaf L v b = (L, r) /\ r <> ROk /\ r <> RParentMissing.
+Proof.
+  intros Hv. unfold add_leaf.
+  destruct (loaded L); cbn [negb]; [|eexists; split; [reflexivity|split; discriminate]].
+  destruct (N.eqb _ (v_signer v)); [eexists; split; [reflexivity|split; discriminate]|].
+  destruct (is_empty_trx _); [eexists; split; [reflexivity|split; discriminate]|].
+  destruct (canonb _); cbn [negb]; [|eexists; split; [reflexivity|split; discriminate]].
+  unfold add_leaf_mem.
+  destruct (N.eqb _ (genesis L)); [eexists; split; [reflexivity|split; discriminate]|].
+  destruct (_ && _); [eexists; split; [reflexivity|split; discriminate]|].
+  destruct (_ || _); [eexists; split; [reflexivity|split; discriminate]|].
+  destruct (has_trx L _); [eexists; split; [reflexivity|split; discriminate]|].
+  rewrite Hv. cbn [negb]. eexists; split; [reflexivity|split; discriminate].
+Qed.
+
+Lemma retry_unverified_rejected L v rep b : v_ok v = false ->
+  exists r, add_leaf_mem L v rep b = (L, r) /\ r <> ROk /\ r <> RParentMissing.
+Proof.
+  intros Hv. unfold add_leaf_mem.
+  destruct (N.eqb _ (genesis L)); [eexists; split; [reflexivity|split; discriminate]|].
+  destruct (_ && _); [eexists; split; [reflexivity|split; discriminate]|].
+  destruct (_ || _); [eexists; split; [reflexivity|split; discriminate]|].
+  destruct (has_trx L _); [eexists; split; [reflexivity|split; discriminate]|].
+  rewrite Hv. cbn [negb]. eexists; split; [reflexivity|split; discriminate].
+Qed.
+
+Lemma unverified_never_admitted L v b : v_ok v = false ->
+  (exists r, add_leaf L v b = (L, r) /\ r <> ROk /\ r <> RParentMissing) /\
+  (forall rep, exists r, add_leaf_mem L v rep b = (L, r) /\ r <> ROk /\ r <> RParentMissing).
+Proof. intros H. split; [apply unverified_rejected|intros rep; apply retry_unverified_rejected]; exact H. Qed.
